@@ -249,6 +249,8 @@ type Obligation struct {
 
 // VC is the verification context of one function under contract.
 type VC struct {
+	thorough bool // thorough tier: frames are compared location by location even for heaps the modifies clause names
+	witness  *State // frame check: modifies targets take the values of this state instead of fresh ones
 	iptrBase map[string]*Term // materialised interior pointers: the object each points into
 	eng           *Engine
 	fn            *ssa.Function
